@@ -144,6 +144,8 @@ def _mech(m, pos):
                 return 'import'
             if x.search_ancestor('type_params') is not None:
                 return 'type_param'
+            if x.parent is root and root.type in ('funcdef', 'classdef') and len(root.children) > 1 and root.children[1] is x:
+                return 'own_name_of_scope'      # bound in the enclosing scope, not in this one
             a, prev = x.parent, x
             while a is not None and a is not root:
                 if a.type == 'lambdef':
